@@ -62,13 +62,32 @@ def PlacedNonDirs (es : List Entry) (fin : Fs) : Prop :=
 
 def withOwner (nd : Inode) (e : Entry) : Inode := { nd with uid := e.uid, gid := e.gid }
 
+/-- the symlink (inode `i`, `nd`) that sat at a directory entry's location is still there: same inode, target,
+mode and mtime; its ownership is the old or the recorded one -/
+def KeptLink (fin : Fs) (e : Entry) (i : Nat) (nd : Inode) : Prop :=
+  ∃ nd', fin.view e.loc = some (i, nd') ∧ nd'.kind = nd.kind ∧ nd'.mode = nd.mode ∧ nd'.mtime = nd.mtime ∧
+    ((nd'.uid = nd.uid ∧ nd'.gid = nd.gid) ∨ (nd'.uid = e.uid ∧ nd'.gid = e.gid))
+
+instance (fin : Fs) (e : Entry) (i : Nat) (nd : Inode) : Decidable (KeptLink fin e i nd) :=
+  match h : fin.view e.loc with
+  | none => isFalse (by unfold KeptLink; simp [h])
+  | some (j, x) =>
+    if hc : j = i ∧ x.kind = nd.kind ∧ x.mode = nd.mode ∧ x.mtime = nd.mtime ∧
+        ((x.uid = nd.uid ∧ x.gid = nd.gid) ∨ (x.uid = e.uid ∧ x.gid = e.gid)) then
+      isTrue ⟨x, by rw [h, hc.1], hc.2⟩
+    else isFalse (by
+      rintro ⟨nd', h1, h2⟩
+      rw [h] at h1
+      cases h1
+      exact hc ⟨rfl, h2⟩)
+
 def PlacedDir (pre : Fs) (fin : Fs) (e : Entry) : Prop :=
   match pre.view e.loc with
   | none => ∃ j, fin.view e.loc = some (j, e.inode)
   | some (i, nd) =>
     match nd.kind with
     | .dir => fin.view e.loc = some (i, withOwner nd e)
-    | .sym _ => (∃ j, fin.view e.loc = some (j, e.inode)) ∨ fin.view e.loc = some (i, withOwner nd e)
+    | .sym _ => (∃ j, fin.view e.loc = some (j, e.inode)) ∨ KeptLink fin e i nd
     | _ => False
 
 def PlacedDirs (pre : Fs) (es : List Entry) (fin : Fs) : Prop :=
@@ -130,6 +149,21 @@ def TreeShaped (es : List Entry) : Prop := ∀ a ∈ es, ∀ b ∈ es, ProperAnc
 def NoSymOverDir (pre : Fs) (es : List Entry) : Prop :=
   ∀ e ∈ es, e.isSym = true → ¬ ∃ j nd, pre.view e.loc = some (j, nd) ∧ nd.kind = .dir
 
+/-- a symlink that sits where a directory entry goes has no second name (hard-linked symlinks are legal POSIX,
+but `lchown` on the link would then reach a path outside the contents) -/
+def SymAtDirSolo (pre : Fs) (es : List Entry) : Prop :=
+  ∀ e ∈ es, e.isDir = true → ∀ q ∈ pre.ents.map (·.1), q ≠ e.loc →
+    match pre.view e.loc, pre.view q with
+    | some (i, nd), some (j, _) => (∃ t, nd.kind = .sym t) → j ≠ i
+    | _, _ => True
+
+/-- when the offset root itself is created by the merge, it is a parent of the entries, not an entry -/
+def RootGuard (withOffset : Bool) (pre : Fs) (es : List Entry) : Prop :=
+  withOffset = true → pre.view [] = none → [] ∉ locs es ∧ es ≠ []
+
+instance (off : Bool) (pre : Fs) (es : List Entry) : Decidable (RootGuard off pre es) := by
+  unfold RootGuard; infer_instance
+
 /-- entries of one source inode carry the same data (they are the same file) -/
 def HardlinkConsistent (es : List Entry) : Prop :=
   ∀ a ∈ es, ∀ b ∈ es, SameSourceInode a b →
@@ -141,6 +175,21 @@ instance (es : List Entry) : Decidable (DistinctLocs es) := by unfold DistinctLo
 instance (es : List Entry) : Decidable (NoTmpClash es) := by unfold NoTmpClash; infer_instance
 instance (es : List Entry) : Decidable (TreeShaped es) := by unfold TreeShaped; infer_instance
 instance (pre : Fs) (es : List Entry) : Decidable (NoSymOverDir pre es) := by unfold NoSymOverDir; infer_instance
+instance (k : Kind) : Decidable (∃ t, k = .sym t) :=
+  match k with
+  | .sym t => isTrue ⟨t, rfl⟩
+  | .dir => isFalse (by simp)
+  | .file _ => isFalse (by simp)
+  | .fifo => isFalse (by simp)
+
+instance (pre : Fs) (es : List Entry) : Decidable (SymAtDirSolo pre es) := by
+  unfold SymAtDirSolo
+  refine @List.decidableBAll _ _ (fun e => ?_) es
+  refine @instDecidableForall _ _ _ ?_
+  refine @List.decidableBAll _ _ (fun q => ?_) _
+  refine @instDecidableForall _ _ _ ?_
+  split <;> infer_instance
+
 instance (es : List Entry) : Decidable (HardlinkConsistent es) := by
   unfold HardlinkConsistent
   refine @List.decidableBAll _ _ (fun a => ?_) es
@@ -185,10 +234,12 @@ def placedFailures (pre : Fs) (es : List Entry) (fin : Fs) : List String :=
 
 /-- names of the guards an input does not satisfy -/
 def guardFailures (pre : Fs) (es : List Entry) : List String :=
+  (if RootGuard true pre es then [] else ["root"]) ++
   (if DistinctLocs es then [] else ["distinct"]) ++
   (if NoTmpClash es then [] else ["tmpclash"]) ++
   (if TreeShaped es then [] else ["tree"]) ++
   (if NoSymOverDir pre es then [] else ["symoverdir"]) ++
-  (if HardlinkConsistent es then [] else ["hardlinkdata"])
+  (if HardlinkConsistent es then [] else ["hardlinkdata"]) ++
+  (if SymAtDirSolo pre es then [] else ["symlinkshared"])
 
 end Pkgcore.C18.Spec
